@@ -35,7 +35,9 @@ UI_PAGE_SIZES = {1: 120, 2: 79, 3: 40, 4: 28}       # 109-byte UI message -> 1..
 AUTH_LENS = [0, 1, 32, 1000]
 CHAIN_LENS = [2, 3]
 # boundary values for the bytes that directly follow a textual header / end a message
-EDGE_BYTES = [0x30, 0x39, 0x3a, 0x0a, 0x00, 0x07, 0xff]
+# (hex): single bytes, and two-byte beginnings that could continue the header's own grammar
+EDGES = ["30", "39", "3a", "0a", "00", "07", "ff", "2e", "2e37", "2e30", "3a3a", "352e"]
+UD_SPELLINGS = ["plain", "0x", "upper", "0x-upper"]
 
 # field -> oracle class.  must-fail: a byte the device signed / committed to by a signed hash,
 # a signature, a key of the chain, TBS or signature of a certificate, the root of trust.
@@ -122,6 +124,27 @@ def ns(plat, **kw):
         d.update(sgx_port=7777, sgx_host="localhost")
     d.update(kw)
     return argparse.Namespace(**d)
+
+
+def same_field(key, got, want):
+    """file field vs the device's value: hex fields compared as bytes"""
+    if key in ("name", "type", "signed_by") or not isinstance(got, str):
+        return got == want
+    try:
+        return bytes.fromhex(got) == bytes.fromhex(want)
+    except ValueError:
+        return got == want
+
+
+def same_keys(got, want):
+    """public-keys file vs the device's keys: same paths, same points (any standard encoding)"""
+    from ..att import k1 as _k1
+    if not isinstance(got, dict) or set(got) != set(want):
+        return False
+    try:
+        return all(_k1.uncompressed(bytes.fromhex(got[p])) == bytes.fromhex(want[p]) for p in want)
+    except (ValueError, TypeError):
+        return False
 
 
 def flip(data, i, mask):
@@ -215,30 +238,47 @@ class C15(Check):
         atexit.register(cleanup)
 
     def find_salts(self, fac):
+        """salts of the last wallet key for which the device's public-keys hash starts / ends
+        with each single boundary byte, or starts with '.' + digit"""
         seed = ledger_seed(fac, Rng("c15-seed").bytes(32))
         h = hashlib.sha256()
         for p in L.PATHS[:-1]:
             h.update(fac.key(b"wallet", seed + L.path_binary(p)).pub65)
-        need = {(pos, b) for pos in ("first", "last") for b in EDGE_BYTES}
+        wanted = {"kh-first-2e3x": lambda dg: dg[0] == 0x2e and 0x30 <= dg[1] <= 0x39}
+        for e in EDGES:
+            if len(e) == 2:
+                wanted["kh-first-" + e] = lambda dg, b=int(e, 16): dg[0] == b
+                wanted["kh-last-" + e] = lambda dg, b=int(e, 16): dg[-1] == b
+        salt_of = {}
+        counter = [0]
+
+        def candidate(n):
+            # the derivation of LedgerFactory.key(b"wallet", seed + path + salt)
+            counter[0] += 1
+            salt = counter[0].to_bytes(4, "big")
+            dg = hashlib.sha256(b"wallet" + fac.secret + seed + L.path_binary(L.PATHS[-1])
+                                + salt).digest()
+            salt_of[int.from_bytes(dg, "big") % (k1.N - 1) + 1] = salt
+            return dg
         out = {"base": b""}
-        n = 0
-        while need:
-            n += 1
-            if n > 20000:
-                raise HarnessError("wallet search does not terminate")
-            salt = n.to_bytes(4, "big")
-            d = int.from_bytes(hashlib.sha256(b"wallet" + fac.secret + seed
-                                              + L.path_binary(L.PATHS[-1]) + salt).digest(), "big")
-            h2 = h.copy()
-            h2.update(k1.Key(d % (k1.N - 1) + 1).pub65)
-            dg = h2.digest()
-            for key in (("first", dg[0]), ("last", dg[-1])):
-                if key in need:
-                    need.discard(key)
-                    out["kh-%s-%02x" % key] = salt
+        for name, (d, _) in k1.search_last_key(h, candidate, wanted).items():
+            out[name] = salt_of[d]
         return out
 
     def platform_of(self, cfg):
+        if cfg.get("zone") is not None:
+            # a platform whose certificates were issued an hour ago and last two more hours
+            import datetime
+            t0 = datetime.datetime.now(datetime.timezone.utc).replace(microsecond=0)
+            key = ("zone", cfg["auth"], cfg["chain"])
+            if key not in self.platforms or abs((self.platforms[key].t0 - t0).total_seconds()) > 600:
+                pf = SgxPlatform(Rng("c15-sgx-zone-%d-%d" % (cfg["auth"], cfg["chain"])),
+                                 cfg["auth"], cfg["chain"],
+                                 window=(t0 - datetime.timedelta(hours=1),
+                                         t0 + datetime.timedelta(hours=2)))
+                pf.t0 = t0
+                self.platforms[key] = pf
+            return self.platforms[key]
         if cfg.get("values") is None:
             return self.platforms[(cfg["auth"], cfg["chain"])]
         return self.platforms[(cfg["auth"], cfg["chain"], cfg["values"])]
@@ -246,8 +286,16 @@ class C15(Check):
     def ud_for(self, cfg):
         if cfg.get("values") is not None:
             return L.shape(self.ud, cfg["values"])
-        b = cfg.get("ud")
-        return self.ud if b is None else bytes([b]) + self.ud[1:-1] + bytes([b])
+        if cfg.get("ud") is None:
+            return self.ud
+        b = bytes.fromhex(cfg["ud"])
+        return b + self.ud[len(b):-len(b)] + b
+
+    def spell(self, ud, cfg):
+        """the --attudsource argument in one of the spellings the tool accepts"""
+        sp = cfg.get("udspell", "plain")
+        hx = ud.hex().upper() if "upper" in sp else ud.hex()
+        return ("0x" + hx) if sp.startswith("0x") else hx
 
     def bounds(self):
         return {"ledger_devices": "UI pages 1..4 x {legacy, current} signer framing",
@@ -267,8 +315,8 @@ class C15(Check):
             for legacy in (False, True):
                 cfg = {"pages": pages, "legacy": legacy}
                 cs.append({"kind": "ledger", "cfg": cfg, "field": None})
-                for b in EDGE_BYTES:
-                    cs.append({"kind": "ledger-edges", "cfg": cfg, "byte": b})
+                for e in EDGES:
+                    cs.append({"kind": "ledger-edges", "cfg": cfg, "edge": e})
                 for f, _ in LEDGER_FIELDS:
                     if legacy and f == "signer.env":
                         continue
@@ -289,6 +337,10 @@ class C15(Check):
                 cs.append({"kind": "sgx", "cfg": cfg, "field": "pubkey-swap"})
         for prof in L.VALUE_PROFILES[1:]:
             cs.append({"kind": "value-shapes", "values": prof})
+        for sp in UD_SPELLINGS:
+            cs.append({"kind": "ud-spellings", "udspell": sp})
+        for zone in seams.ZONES:
+            cs.append({"kind": "sgx-zones", "zone": zone})
         return cs
 
     def replay(self, case, choices):
@@ -321,7 +373,7 @@ class C15(Check):
             # genuine devices whose UD value / iteration / keys hash start or end with a boundary
             # byte (the bytes next to the textual headers and at the end of the messages)
             for keys in sorted(self.salts[bool(case["cfg"]["legacy"])]):
-                cfg = dict(case["cfg"], ud=case["byte"], keys=keys)
+                cfg = dict(case["cfg"], ud=case["edge"], keys=keys)
                 self.execute("ledger", cfg, None, "genuine", stats, vs)
             return vs
         if k == "value-shapes":
@@ -332,11 +384,32 @@ class C15(Check):
             self.execute("sgx", {"auth": 32, "chain": 3, "values": case["values"]}, None,
                          "genuine", stats, vs)
             return vs
+        if k == "ud-spellings":
+            # the UD source argument: plain / 0x-prefixed / upper case, for every value shape
+            for prof in [None] + L.VALUE_PROFILES[1:]:
+                extra = {"udspell": case["udspell"]}
+                if prof is not None:
+                    extra["values"] = prof
+                for base in ({"pages": 2, "legacy": False}, {"pages": 1, "legacy": True}):
+                    self.execute("ledger", dict(base, **extra), None, "genuine", stats, vs)
+                self.execute("sgx", dict({"auth": 32, "chain": 3}, **extra), None, "genuine",
+                             stats, vs)
+            for e in ("00", "07"):
+                self.execute("sgx", {"auth": 32, "chain": 3, "ud": e, "udspell": case["udspell"]},
+                             None, "genuine", stats, vs)
+            return vs
+        if k == "sgx-zones":
+            self.execute("sgx", {"auth": 32, "chain": 3, "zone": case["zone"]}, None, "genuine",
+                         stats, vs)
+            self.execute("sgx", {"auth": 1, "chain": 2, "zone": case["zone"]}, None, "genuine",
+                         stats, vs)
+            return vs
         if k == "sgx-edges":
-            for b in EDGE_BYTES:
-                self.execute("sgx", dict(case["cfg"], ud=b), None, "genuine", stats, vs)
+            for e in EDGES:
+                self.execute("sgx", dict(case["cfg"], ud=e), None, "genuine", stats, vs)
             # two genuine devices one after the other in one process, same file locations
-            for other in sorted(k2 for k2 in self.platforms if len(k2) == 2):
+            for other in sorted(k2 for k2 in self.platforms if len(k2) == 2
+                                and isinstance(k2[0], int)):
                 if other != (case["cfg"]["auth"], case["cfg"]["chain"]):
                     self.execute("sgx", {"auth": other[0], "chain": other[1]}, None, "genuine",
                                  stats, vs)
@@ -520,8 +593,39 @@ class C15(Check):
             r["frame"] = self.harness.innermost_repo_frame(e)
         r["stdout_" + name] = buf.getvalue()
 
+    DOCUMENTED_KEYS = ("name", "type", "message", "custom_data", "signature", "signed_by", "tweak",
+                       "key", "auth_data")
+
+    @classmethod
+    def canonical(cls, doc):
+        """What docs/attestation.md gives a meaning to: version, targets (as a set), elements by
+        name with their documented fields; hex compared as bytes, PEM bodies as DER.  Key order,
+        element order, layout and additional keys carry no information."""
+        def value(el, k):
+            v = el.get(k)
+            if not isinstance(v, str):
+                return v
+            if k in ("name", "type", "signed_by"):
+                return v
+            if k == "message" and el.get("type") == "x509_pem":
+                try:
+                    return base64.b64decode(v)
+                except Exception:   # noqa
+                    return v
+            try:
+                return bytes.fromhex(v)
+            except ValueError:
+                return v
+        els = {}
+        for el in doc.get("elements", []):
+            els[el.get("name")] = {k: value(el, k) for k in cls.DOCUMENTED_KEYS if k in el}
+        tg = doc.get("targets")
+        return {"version": doc.get("version"),
+                "targets": sorted(tg) if isinstance(tg, list) else tg, "elements": els}
+
     def fixed_point(self, path, mism, label):
-        """from_jsonfile(file).to_dict() == the file; saving that again gives the same file"""
+        """the file loads back without loss: what the public loader holds after reading the file
+        (its to_dict) means the same as the file (see canonical)"""
         with open(path) as f:
             text = f.read()
         doc = json.loads(text)
@@ -530,8 +634,8 @@ class C15(Check):
         except Exception as e:   # noqa
             mism.append((label + "-loads-back", repr(e), "loads"))
             return doc
-        if json.loads(json.dumps(again)) != doc:
-            mism.append((label + "-fixed-point", again, doc))
+        if self.canonical(json.loads(json.dumps(again))) != self.canonical(doc):
+            mism.append((label + "-loads-back-without-loss", again, doc))
         return doc
 
     # -- Ledger ------------------------------------------------------------------------------
@@ -540,7 +644,10 @@ class C15(Check):
         fac = self.factories[bool(cfg["legacy"]) if cfg.get("values") is None
                              else (bool(cfg["legacy"]), cfg["values"])]
         ud = self.ud_for(cfg)
-        it = None if cfg.get("ud") is None else (fac.signer_iteration & 0xff00) | cfg["ud"]
+        it = None
+        if cfg.get("ud") is not None:
+            it = int.from_bytes((fac.signer_iteration.to_bytes(2, "big")
+                                 + bytes.fromhex(cfg["ud"]))[-2:], "big")
         dev = GenuineLedger(fac, UI_PAGE_SIZES[cfg["pages"]], check_host=alter is None,
                             wallet_salt=self.salts[bool(cfg["legacy"])][cfg.get("keys", "base")],
                             signer_iteration=it)
@@ -563,7 +670,7 @@ class C15(Check):
             dev.power_cycle()
             self.stage(r, "attestation", lambda: m.LA.do_attestation(
                 ns("ledger", operation="attestation", pin=PIN, output_file_path=att,
-                   attestation_certificate_file_path=setup, attestation_ud_source=ud.hex())))
+                   attestation_certificate_file_path=setup, attestation_ud_source=self.spell(ud, cfg))))
             self.stage(r, "pubkeys", lambda: m.PK.do_get_pubkeys(
                 ns("ledger", operation="pubkeys", no_unlock=True, output_file_path=pktxt)))
             self.stage(r, "verify", lambda: m.VL.do_verify_attestation(
@@ -603,14 +710,14 @@ class C15(Check):
         }
         for (el, k), w in want.items():
             got = els.get(el, {}).get(k)
-            if got != w:
+            if not same_field(k, got, w):
                 mism.append(("file:%s.%s" % (el, k), got, w))
         if sorted(doc.get("targets", [])) != ["signer", "ui"]:
             mism.append(("file:targets", doc.get("targets"), ["ui", "signer"]))
         with open(pkjson) as f:
             pk = json.load(f)
         wantpk = {p: dev.wallet(p).pub65.hex() for p in L.PATHS}
-        if pk != wantpk:
+        if not same_keys(pk, wantpk):
             mism.append(("pubkeys-file", pk, wantpk))
         sec = L.parse_output(r["stdout"])
         ui = L.section(sec, "UI verified")
@@ -675,11 +782,11 @@ class C15(Check):
             f.write(S.pem(root_der))
         r = {"stage": None, "exc": None, "text": None, "mismatches": [], "stdout": ""}
         m.Platform.set(m.Platform.SGX, {"sgx_host": "localhost", "sgx_port": 7777})
-        S.FixedClock.current = S.CLOCK
-        with self.owned(dev, world, {}, []):
+        S.FixedClock.current = S.CLOCK if cfg.get("zone") is None else plat.t0
+        with self.owned(dev, world, {}, []), seams.process_zone(cfg.get("zone") or "UTC"):
             self.stage(r, "attestation", lambda: m.SA.do_attestation(
                 ns("sgx", operation="attestation", pin=plat.pin.decode(), output_file_path=att,
-                   attestation_ud_source=ud.hex())))
+                   attestation_ud_source=self.spell(ud, cfg))))
             self.stage(r, "pubkeys", lambda: m.PK.do_get_pubkeys(
                 ns("sgx", operation="pubkeys", no_unlock=True, output_file_path=pktxt)))
             self.stage(r, "verify", lambda: m.VS.do_verify_attestation(
@@ -709,7 +816,7 @@ class C15(Check):
         }
         for (el, k), w in want.items():
             got = els.get(el, {}).get(k)
-            if got != w:
+            if not same_field(k, got, w):
                 mism.append(("file:%s.%s" % (el, k), got, w))
         for el, der in (("quoting_enclave", plat.h.pck_der), ("platform_ca", plat.h.ca_der)):
             try:
@@ -734,12 +841,12 @@ class C15(Check):
                 got = None
             if got != raw:
                 mism.append(("file:%s.signature" % el, got, raw))
-        if doc.get("targets") != ["quote"]:
+        if sorted(doc.get("targets") or []) != ["quote"]:
             mism.append(("file:targets", doc.get("targets"), ["quote"]))
         with open(pkjson) as fh:
             pk = json.load(fh)
         wantpk = {p: plat.wallet[p].pub65.hex() for p in L.PATHS}
-        if pk != wantpk:
+        if not same_keys(pk, wantpk):
             mism.append(("pubkeys-file", pk, wantpk))
         s = L.section(L.parse_output(r["stdout"]), "powHSM verified")
         w = {p: plat.wallet[p].pub33.hex() for p in L.PATHS}
